@@ -139,6 +139,7 @@ func c18Script(spec WorldSpec) []Op {
 	// account-level functions on the owner's / contract's own shards; cross-shard ones travel as messages
 	ops = append(ops,
 		call(sh(dns), vmcommon.BuiltInFunctionSetUserName, dns, u0, []byte("alice")),
+		call(sh(dns), vmcommon.BuiltInFunctionSetUserName, dns, spec.Users[len(spec.Users)-2], []byte("bob")), // a user on the last shard: travels as a message when there are several shards
 		call(sh(owner), vmcommon.BuiltInFunctionClaimDeveloperRewards, owner, sc),
 		call(sh(owner), vmcommon.BuiltInFunctionChangeOwnerAddress, owner, sc, far),
 	)
